@@ -187,7 +187,7 @@ class Graph:
         return None
 
 
-def plan(g, terminal_labels, nseg, seg_budget, rng, total_budget=None):
+def plan(g, terminal_labels, nseg, seg_budget, rng, total_budget=None, defer=()):
     """Greedy edge-covering walks.  Each segment starts a fresh session at the initial node.
     Edges whose label is in terminal_labels (listed known findings: the real state is not to be trusted
     after them) are kept out of the walks and get one short script each (prefix + edge + one `cont`)."""
@@ -218,7 +218,16 @@ def plan(g, terminal_labels, nseg, seg_budget, rng, total_budget=None):
         while cost < seg_budget:
             u = unc[cur]
             if u["other"]:
-                take(byid[min(u["other"]) if rng.random() < 0.5 else max(u["other"])])
+                # requests on a location a LISTED defect poisons are scheduled after everything else here
+                first = [i for i in u["other"] if not (byid[i]["cmd"]["op"] == "add" and byid[i]["cmd"]["loc"] in defer)]
+                pool = first or sorted(u["other"])
+                if first or not g.bfs(cur, {"other"}, lambda n: any(
+                        not (byid[i]["cmd"]["op"] == "add" and byid[i]["cmd"]["loc"] in defer) for i in unc[n]["other"])):
+                    take(byid[min(pool) if rng.random() < 0.5 else max(pool)])
+                    continue
+                for e in g.bfs(cur, {"other"}, lambda n: any(
+                        not (byid[i]["cmd"]["op"] == "add" and byid[i]["cmd"]["loc"] in defer) for i in unc[n]["other"])):
+                    take(e)
                 continue
             p = g.bfs(cur, {"other"}, lambda n: bool(unc[n]["other"]))
             if p:
@@ -343,9 +352,9 @@ def run_jobs(exe, base, scripts, workers, timeout):
 class Cmp:
     def __init__(self, lines, known=()):
         self.lines = lines
-        # listed known findings that only poison the comparison while the affected watchpoint lives
-        self.resync = [e for e in known if e.get("status") == "known" and e.get("property") == "C14"
-                       and e.get("resync") == "until_location_inactive"]
+        # (no resynchronisation after a listed defect: its consequences - a slot that looks free, two
+        # watchpoints sharing one register - outlive the affected watchpoint; the session ends there)
+        self.resync = []
         self.side = []          # mismatches recorded without ending the session (see compare)
         self.skipped = 0
         self.abandoned = 0
@@ -699,11 +708,27 @@ def run(rep, tier, replay):
         nseg, seg_budget, total = workers, 60.0, None
     else:
         nseg, seg_budget, total = 60, 400.0, 6 * 1000.0
-    segs, terms, covered = plan(g, terminal, nseg, seg_budget, rng, total)
+    defer = {e["defer_location"] for e in rep.known if e.get("property") == "C14" and e.get("defer_location")}
+    segs, terms, covered = plan(g, terminal, nseg, seg_budget, rng, total, defer)
     if quick:
         rng.shuffle(terms)
         terms = terms[:6]
-    scripts = [(f"w{i}", script_of(p)) for i, p in enumerate(segs)] + [(f"t{i}", script_of(p)) for i, p in enumerate(terms)]
+    # every command class of the specification must be exercised: add a shortest script for any class the
+    # walks of this run do not contain
+    planned = {e["cmd"]["label"] for p in segs + terms for e in p}
+    extra = []
+    for lab in sorted(CORE_LABELS - planned):
+        for x in g.e:
+            x["blocked"] = False
+        has = lambda n, lab=lab: any(e["cmd"]["label"] == lab for e in g.out[n])
+        p = g.bfs(g.init, {"other", "cont", "restart"}, has, maxn=100000)
+        if p is None:
+            raise vlib.ToolError(f"command class {lab} does not occur in the generation graph")
+        last = p[-1]["d"] if p else g.init
+        extra.append(p + [next(e for e in g.out[last] if e["cmd"]["label"] == lab)])
+    scripts = [(f"w{i}", script_of(p)) for i, p in enumerate(segs)] + \
+              [(f"c{i}", script_of(p)) for i, p in enumerate(extra)] + \
+              [(f"t{i}", script_of(p)) for i, p in enumerate(terms)]
     vlib.log(f"[plan] {len(g.out)} nodes {len(g.e)} edges; {len(segs)} walks ({sum(map(len, segs))} commands, "
              f"{len(covered)} distinct edges) + {len(terms)} terminal scripts; {time.time() - t0:.0f}s so far")
     res = run_jobs(exe, job_base(puppet, lines), scripts, workers, 100 if quick else 1400)
@@ -730,7 +755,7 @@ def run(rep, tier, replay):
         m, done = cmpr.compare(sid, steps, rr["recs"], rr["rc"])
         replayed_edges.update(s["edge"] for s in steps[:done])
         if m:
-            m["terminal"] = sid.startswith("t")
+            m["terminal"] = sid.startswith("t") or sid.startswith("c")
             mism.append(m)
         else:
             validated += 1
